@@ -116,6 +116,15 @@ func runC07(ctx *core.Ctx, idx int) *core.Result {
 			}
 		}
 		files = append(files, fi{"b_bad.go", bad, true})
+		if r.Intn(3) == 0 {
+			// the same bytes again under other names (vendored copies): each copy is a file of its own and is refused
+			// like the first
+			files = append(files, fi{"b_bad_copy.go", bad, true})
+			if r.Intn(2) == 0 {
+				files = append(files, fi{"z_bad_copy.go", bad, true})
+			}
+			res.Ob("misfit-files-with-identical-copies", 1)
+		}
 		if order != 0 {
 			files = append(files, fi{"c_good.go", m.Good, false})
 		}
